@@ -21,9 +21,10 @@ for p in props:
         continue
     jobs = info["jobs"]()
     kinds = sorted(set(j.kind for j in jobs))
-    eng = "+".join({"kani": "K", "rsx": "X"}[k] for k in kinds)
+    eng = "+".join({"kani": "K", "rsx": "X"}[k] for k in kinds if k != "scan")
     for k in kinds:
-        serves[{"kani": "K", "rsx": "X"}[k]].append(pid)
+        if k != "scan":
+            serves[{"kani": "K", "rsx": "X"}[k]].append(pid)
     b = info.get("bounds", {})
     text = info.get("claim") or ("Bounded, solver-decided: no counterexample within the bounds. quick: %s. thorough: %s." % (b.get("quick", ""), b.get("thorough", "")))
     tech = info.get("technique") or {
